@@ -222,6 +222,10 @@ func (r *RoundTripper) RoundTripOnlyCachedConn(req *http.Request) (*http.Respons
 
 // AddConn add a http3 connection, dial new conn if not exists.
 func (r *RoundTripper) AddConn(ctx context.Context, addr string) error {
+	r.initOnce.Do(func() { r.initErr = r.init() })
+	if r.initErr != nil {
+		return r.initErr
+	}
 	addr = authorityAddr(addr)
 	cl, _, err := r.getClient(ctx, addr, false)
 	if err == nil {
